@@ -22,6 +22,7 @@ pub fn exec(w: &mut World, name: &str, op: &Value) -> R<Value> {
 /// One compact op, so that a replay re-runs the whole observation.
 fn observe(w: &mut World, op: &Value) -> R<Value> {
     w.nondeterministic = true;
+    crate::runner::watch_exempt();
     let site = gs(op, "site")?.to_string();
     let n = gu(op, "n")? as usize;
     let mut p = crate::prng::Prng::new(gu(op, "seed")?);
@@ -105,6 +106,7 @@ fn stats(w: &mut World, op: &Value) -> R<Value> {
 /// Fresh processes (and this one) must not produce a common scalar.
 fn restart(w: &mut World, op: &Value) -> R<Value> {
     w.nondeterministic = true;
+    crate::runner::watch_exempt();
     let procs = gu(op, "procs")? as usize;
     let per_site = gu(op, "per_site")? as usize;
     let exe = std::env::current_exe().map_err(|e| e.to_string())?;
@@ -115,9 +117,17 @@ fn restart(w: &mut World, op: &Value) -> R<Value> {
     for (_, v) in &w.observed {
         seen.entry(v.clone()).or_insert(0);
     }
-    let children: Vec<_> = (0..procs)
-        .map(|_| std::process::Command::new(&exe).args(["c14-child", &per_site.to_string()]).output())
+    // all children run concurrently
+    let spawned: Vec<_> = (0..procs)
+        .map(|_| {
+            std::process::Command::new(&exe)
+                .args(["c14-child", &per_site.to_string()])
+                .stdout(std::process::Stdio::piped())
+                .stderr(std::process::Stdio::piped())
+                .spawn()
+        })
         .collect();
+    let children: Vec<_> = spawned.into_iter().map(|c| c.and_then(|c| c.wait_with_output())).collect();
     for (ci, out) in children.into_iter().enumerate() {
         let out = out.map_err(|e| format!("cannot spawn child: {e}"))?;
         if !out.status.success() {
